@@ -179,12 +179,12 @@ def attach_all(run, rt_):
     import skgenome.rangelabel as RL
     import skgenome.chromsort as CS
     from skgenome import GenomicArray as GA
-    traced = [("tabio.read", T.read), ("tabio.write", T.write), ("tabio.read_auto", T.read_auto), ("tabio.sniff_region_format", T.sniff_region_format),
-              ("bedio.read_bed", bedio.read_bed), ("picard.read_interval", picard.read_interval), ("picard.write_interval", picard.write_interval),
-              ("picard.read_picard_hs", picard.read_picard_hs), ("textcoord.read_text", textcoord.read_text), ("textcoord.write_text", textcoord.write_text),
-              ("gff.read_gff", gff.read_gff), ("seg.parse_seg", seg.parse_seg), ("seg.format_seg", seg.format_seg), ("tab.read_tab", tab.read_tab),
-              ("vcfsimple.read_vcf_sites", vcfsimple.read_vcf_sites), ("rangelabel.from_label", RL.from_label), ("rangelabel.to_label", RL.to_label),
-              ("chromsort.sorter_chrom", CS.sorter_chrom), ("gary.sort", GA.sort)]
+    traced = [("tabio.read", rt.opt(T, "read")), ("tabio.write", rt.opt(T, "write")), ("tabio.read_auto", rt.opt(T, "read_auto")), ("tabio.sniff_region_format", rt.opt(T, "sniff_region_format")),
+              ("bedio.read_bed", rt.opt(bedio, "read_bed")), ("picard.read_interval", rt.opt(picard, "read_interval")), ("picard.write_interval", rt.opt(picard, "write_interval")),
+              ("picard.read_picard_hs", rt.opt(picard, "read_picard_hs")), ("textcoord.read_text", rt.opt(textcoord, "read_text")), ("textcoord.write_text", rt.opt(textcoord, "write_text")),
+              ("gff.read_gff", rt.opt(gff, "read_gff")), ("seg.parse_seg", rt.opt(seg, "parse_seg")), ("seg.format_seg", rt.opt(seg, "format_seg")), ("tab.read_tab", rt.opt(tab, "read_tab")),
+              ("vcfsimple.read_vcf_sites", rt.opt(vcfsimple, "read_vcf_sites")), ("rangelabel.from_label", rt.opt(RL, "from_label")), ("rangelabel.to_label", rt.opt(RL, "to_label")),
+              ("chromsort.sorter_chrom", rt.opt(CS, "sorter_chrom")), ("gary.sort", rt.opt(GA, "sort"))]
     rt_.attach(T, "read", name="tabio.read", pre=pre_read, post=post_read)
     rt_.attach(T, "write", name="tabio.write", pre=pre_write, post=post_write)
     rt_.attach(T, "sniff_region_format", name="tabio.sniff_region_format", post=post_sniff)
